@@ -6,6 +6,8 @@ import StathamModel.Codec
 import StathamModel.Parse
 import StathamModel.Dedupe
 import StathamModel.Validate
+import StathamModel.Spec.Draft6
+import StathamModel.Good
 open Lean (Json)
 open Statham Statham.Codec
 
@@ -41,6 +43,24 @@ def handle (req : Json) : R Json := do
         let args ← getArgs req
         let env := tables.env
         pure (Json.mkObj (base ++ [("results", Json.arr (args.map fun a => encRes (el.call env a)).toArray)]))
+  | "spec" => do
+    let tables ← getTables req
+    let sv ← decVal (← req.getObjVal? "schema")
+    let schema ← decSchema sv
+    let args ← getArgs req
+    let env := tables.env
+    let run (len : SKw → Bool) : Json := Json.arr (args.map fun a => match a with
+      | .val v => Json.bool (D6.valid env len schema v)
+      | .notPassed => Json.null).toArray
+    let cx : PCtx := { ci := tables.charInfo }
+    let fl := flagsOf cx schema
+    let flags := Json.mkObj [("wf", fl.wf), ("litClean", fl.litClean), ("intMultipleOf", fl.intMultipleOf),
+      ("noCollapse", fl.noCollapse), ("noSynthetic", fl.noSynthetic), ("defaultFaithful", fl.defaultFaithful)]
+    let dk := Json.arr (args.map fun a => match a with
+      | .val v => Json.bool (distinctKeys v)
+      | .notPassed => Json.null).toArray
+    pure (Json.mkObj [("impl_leniency", run typeHasObject), ("strict", run fun _ => false),
+      ("lenient", run fun _ => true), ("flags", flags), ("distinct_keys", dk)])
   | "elem_call" => do
     let tables ← getTables req
     let el ← decElem (← req.getObjVal? "elem")
